@@ -1259,6 +1259,9 @@ def _log_term(v):
             ctx.memo[key] = t
             ctx.abstract_terms.append(('log', t, zv))
         return t
+    if active() and ('log-axioms' not in cur().memo):
+        cur().memo['log-axioms'] = True
+        cur().add(_LOG(z3.RealVal(1)) == 0)       # true fact about log, needed for log(p/p)
     return _LOG(zv)
 
 
